@@ -7,7 +7,7 @@ Definition Hs := sha256.
 
 Definition wcfg (synced ext : bool) : cfg :=
   {| c_synced := synced; c_embedded := false; c_version := 1; c_maxactive := 10; c_maxentries := 64;
-     c_maxkey := 128; c_maxval := 4096; c_ext0 := ext; c_maxconc := 8 |}.
+     c_maxkey := 128; c_maxval := 4096; c_ext0 := ext; c_maxconc := 8; c_prealloc := false |}.
 
 Definition wtx (k v ts : N) : txspec :=
   {| p_entries := [{| k_key := [k]; k_md := []; k_val := [v] |}]; p_md := None; p_ts := ts;
